@@ -654,7 +654,7 @@ func init() {
 		Pkgs: []string{"root", "clocksync", "multicastsetup", "fragmentation", "firmwaremanagement", "backend"},
 		Items: func(tier string, seed int64) []Item {
 			var it []Item
-			for _, l := range pick(tier, rng(0, 24), append(rng(0, 64), 96, 128, 255, 256)) {
+			for _, l := range pick(tier, append(rng(0, 24), 29, 30, 45), append(rng(0, 64), 96, 128, 255, 256)) {
 				it = append(it, Item{PkgKey: "root", Func: "VerifC09_Frame", Shape: []int{l, pick(tier, []int{2}, []int{3})[0]}})
 			}
 			for _, l := range pick(tier, []int{0, 4, 8, 12}, []int{0, 1, 2, 3, 4, 8, 12, 16, 20}) {
@@ -761,6 +761,7 @@ func init() {
 					for idx := 0; idx <= 5; idx++ {
 						for _, l := range []int{1, 2, 5, 10} {
 							it = append(it, Item{PkgKey: pk, Func: "VerifC10_ReusePayload", Shape: []int{up, idx, l}})
+							it = append(it, Item{PkgKey: pk, Func: "VerifC10_AliasPayload", Shape: []int{up, idx, l}})
 						}
 					}
 				}
